@@ -337,6 +337,46 @@ func runOwn(out *vio.Out) {
 	}
 }
 
+// runAcceptBarrier: eight goroutines released by a spin barrier call AcceptMountedStream on one value at the same instant, many times:
+// at most one of them may ever obtain the stream
+func runAcceptBarrier(out *vio.Out) {
+	trials := 15000
+	if vio.Tier() == "thorough" {
+		trials = 150000
+	}
+	const g = 8
+	multi := 0
+	for t := 0; t < trials; t++ {
+		a, b := net.Pipe()
+		v := link_solicit.NewSolicitMountedStream(&fakes.MountedStream{Strm: &gateStream{Conn: a}, Proto: "p"})
+		var ready, owners atomic.Int64
+		var start atomic.Bool
+		var wg sync.WaitGroup
+		for k := 0; k < g; k++ {
+			wg.Add(1)
+			go func() {
+				defer wg.Done()
+				ready.Add(1)
+				for !start.Load() {
+				}
+				if ms, _, err := v.AcceptMountedStream(); err == nil && ms != nil {
+					owners.Add(1)
+				}
+			}()
+		}
+		for ready.Load() < g {
+		}
+		start.Store(true)
+		wg.Wait()
+		if owners.Load() > 1 {
+			multi++
+		}
+		a.Close()
+		b.Close()
+	}
+	out.Emit(map[string]any{"i": -1, "barrier_trials": trials, "barrier_multi_owner": multi})
+}
+
 func main() {
 	mode := flag.String("mode", "match", "")
 	cases := flag.String("cases", "", "")
@@ -349,6 +389,7 @@ func main() {
 		runMatch(*cases, out, logrus.NewEntry(lg))
 	} else {
 		runOwn(out)
+		runAcceptBarrier(out)
 	}
 	out.Close()
 }
